@@ -79,6 +79,13 @@ def check_acl(arg):
             if cls == "Acl":
                 head = "ip access-list extended A" if platform == "ios" else "ip access-list A"
                 obj = cisco_acl.Acl("\n".join([head] + ["  " + l for l in lines]), platform=platform)
+            elif cls == "acls":
+                # the same body reached through the configuration-level function (section dictionary, then Acl)
+                head = "ip access-list extended A" if platform == "ios" else "ip access-list A"
+                got_ = cisco_acl.acls("\n".join(["hostname R1", head] + [" " + l for l in lines] + ["interface Gi1", " ip access-group A in"]), platform=platform)
+                if len(got_) != 1:
+                    return [dict(key="bounded/acls(text):acl-missing", what=f"acls() returned {len(got_)} access lists for one section with body {lines}", inputs=inputs)], 1
+                obj = got_[0]
             else:
                 obj = cisco_acl.AceGroup("\n".join(lines), platform=platform)
         except (ValueError, TypeError) as ex:
@@ -224,6 +231,7 @@ def main(chk):
     if chk.tier == "quick":
         seqs = seqs[::2] + [tuple(kinds)]
     cases = [(s, "ios", "Acl") for s in seqs] + [(s, "nxos", "Acl") for s in seqs[::5]] + [(s, "ios", "AceGroup") for s in seqs[::3]]
+    cases += [(s, "ios", "acls") for s in seqs[::2] if s] + [(s, "nxos", "acls") for s in seqs[::7] if s]
     res = pmap(check_acl, cases)
     viol = 0
     for fails, _ in res:
